@@ -627,12 +627,12 @@ func (c *Ctx) encodingShortcut(info *types.Info) {
 // ---- C10 specific
 
 // nameProvenance: conversions of data to postscript.Name.
-var nameConvAllowed = map[string]string{
-	"(*postscript.scanner).ScanToken": "bytes collected under the isRegular test",
-	"postscript.makeSystemDict":       "names of psenc.StandardEncoding (constants)",
-	"(*postscript.Interpreter).load":  "operator names come from the scanner (regular characters); used for look-up",
-	"postscript.isSameDict":           "decimal digits; probe key removed again",
-	"postscript.ReadCMap":             "a key already present in the directory",
+var nameConvAllowed = []struct{ pkg, recv, name, why string }{
+	{"postscript", "scanner", "ScanToken", "bytes collected under the isRegular test"},
+	{"postscript", "", "makeSystemDict", "names of psenc.StandardEncoding (constants)"},
+	{"postscript", "Interpreter", "load", "operator names come from the scanner (regular characters); used for look-up"},
+	{"postscript", "", "isSameDict", "decimal digits; probe key removed again"},
+	{"postscript", "", "ReadCMap", "a key already present in the directory"},
 }
 
 func (c *Ctx) nameProvenance() {
@@ -694,11 +694,36 @@ func (c *Ctx) nameProvenance() {
 					case *ssa.DebugRef:
 					case *ssa.Phi:
 						scan(r)
+					case *ssa.Extract:
+						scan(r)
+					case *ssa.Return:
+						// handed back by a helper that is only called directly: follow the result at every call
+						sites := staticCallSites(r.Parent())
+						if len(sites) == 0 {
+							lookupOnly = false
+							break
+						}
+						for i, res := range r.Results {
+							if res != val {
+								continue
+							}
+							for _, site := range sites {
+								if len(r.Results) == 1 {
+									scan(site)
+									continue
+								}
+								for _, u := range *site.Referrers() {
+									if ex, ok := u.(*ssa.Extract); ok && ex.Index == i {
+										scan(ex)
+									}
+								}
+							}
+						}
 					case *ssa.MakeInterface:
 						// boxed for a message: check its users
 						for _, rr := range *r.Referrers() {
 							if call, ok := rr.(ssa.CallInstruction); ok {
-								if sc := call.Common().StaticCallee(); sc != nil && (sc.Name() == "e" || calleeName(sc) == "fmt.Sprintf" || calleeName(sc) == "fmt.Errorf") {
+								if sc := call.Common().StaticCallee(); sc != nil && (c.isFn(sc, "postscript", "Interpreter", "e") || calleeName(sc) == "fmt.Sprintf" || calleeName(sc) == "fmt.Errorf") {
 									continue
 								}
 							}
@@ -719,9 +744,11 @@ func (c *Ctx) nameProvenance() {
 				c.ok("CL-NAMES", fname, "Name(data) used for look-up only", ins.Pos(), "never stored as a key or value", "")
 				return
 			}
-			if why, ok := nameConvAllowed[fname]; ok {
-				c.ok("CL-NAMES", fname, "Name(data)", ins.Pos(), "reviewed: "+why, "")
-				return
+			for _, al := range nameConvAllowed {
+				if c.isFn(top, al.pkg, al.recv, al.name) {
+					c.ok("CL-NAMES", fname, "Name(data)", ins.Pos(), "reviewed: "+al.why, "")
+					return
+				}
 			}
 			c.fail("CL-NAMES", fname, "Name(data) stored", ins.Pos(), "data that did not pass the regular-character test is converted to a PostScript name and stored (e.g. as a dictionary key): a font read with such a glyph or font name cannot be written, because the name serialiser refuses it")
 		})
